@@ -31,6 +31,11 @@ enum ArrOp {
     RetainInts,
     Clear,
     Fmt,
+    /// push `n` integers starting at a base value
+    PushMany(usize, i64),
+    /// stable sort by a coarse key (integers modulo m, everything else first)
+    SortByKeyMod(i64),
+    SortByMod(i64),
 }
 
 #[derive(Clone, Debug)]
@@ -87,6 +92,9 @@ fn op_name(op: &Op) -> &'static str {
             ArrOp::RetainInts => "Array::retain",
             ArrOp::Clear => "Array::clear",
             ArrOp::Fmt => "Array::fmt",
+            ArrOp::PushMany(..) => "Array::push (many)",
+            ArrOp::SortByKeyMod(_) => "Array::sort_by_key",
+            ArrOp::SortByMod(_) => "Array::sort_by",
         },
         Op::Inl { op, .. } => match op {
             InlOp::Insert(..) => "InlineTable::insert",
@@ -450,6 +458,18 @@ fn apply_model(root: &mut KTable, op: &Op) -> bool {
                     ArrOp::RetainInts => a.retain(|x| matches!(x, RVal::Int(_))),
                     ArrOp::Clear => a.clear(),
                     ArrOp::Fmt => {}
+                    ArrOp::PushMany(n, base) => {
+                        for i in 0..*n {
+                            a.push(RVal::Int(base + i as i64));
+                        }
+                    }
+                    ArrOp::SortByKeyMod(m) | ArrOp::SortByMod(m) => {
+                        let m = *m;
+                        a.sort_by_key(|x| match x {
+                            RVal::Int(i) => i.rem_euclid(m),
+                            _ => -1,
+                        });
+                    }
                 }
                 true
             }
@@ -657,6 +677,19 @@ fn apply_real(doc: &mut DocumentMut, op: &Op) -> Result<(), String> {
                 ArrOp::RetainInts => a.retain(|v| v.is_integer()),
                 ArrOp::Clear => a.clear(),
                 ArrOp::Fmt => a.fmt(),
+                ArrOp::PushMany(n, base) => {
+                    for i in 0..*n {
+                        a.push(base + i as i64);
+                    }
+                }
+                ArrOp::SortByKeyMod(m) => {
+                    let m = *m;
+                    a.sort_by_key(|v| v.as_integer().map_or(-1, |i| i.rem_euclid(m)));
+                }
+                ArrOp::SortByMod(m) => {
+                    let m = *m;
+                    a.sort_by(|x, y| x.as_integer().map_or(-1, |i| i.rem_euclid(m)).cmp(&y.as_integer().map_or(-1, |i| i.rem_euclid(m))));
+                }
             }
         }
         Op::Inl { tp, key, op } => {
@@ -766,7 +799,7 @@ fn gen_op(rng: &mut Rng, model: &KTable, counter: &mut i64) -> Op {
                     Some((_, KNode::Val(RVal::Array(a)))) => a.len(),
                     _ => 0,
                 };
-                let op = match rng.below(8) {
+                let op = match rng.below(11) {
                     0 | 1 => ArrOp::Push(c),
                     2 => ArrOp::Insert(rng.below(len + 1), c),
                     3 if len > 0 => ArrOp::Replace(rng.below(len), c),
@@ -779,6 +812,9 @@ fn gen_op(rng: &mut Rng, model: &KTable, counter: &mut i64) -> Op {
                             ArrOp::Fmt
                         }
                     }
+                    7 => ArrOp::PushMany(18 + rng.below(30), c),
+                    8 => ArrOp::SortByKeyMod(2 + rng.below(4) as i64),
+                    9 => ArrOp::SortByMod(2 + rng.below(4) as i64),
                     _ => ArrOp::Push(c),
                 };
                 return Op::Arr { tp, key, op };
